@@ -58,3 +58,14 @@ func VerifInvariants(x interface{}) (problems []string) {
 	}
 	return
 }
+
+// VerifSubstMatrix exposes the built-in substitution matrices (DNAfull when
+// protein is false, BLOSUM62 otherwise) and their character index, so that a
+// monitor can re-score the alignments returned by the pairwise aligner under
+// the scheme the aligner was configured with.
+func VerifSubstMatrix(protein bool) (mat [][]float64, pos map[uint8]int) {
+	if protein {
+		return blosum62_subst_matrix, prot_to_matrix_pos
+	}
+	return dnafull_subst_matrix, dna_to_matrix_pos
+}
